@@ -89,9 +89,11 @@ theorem vsix_resign_replaces (fx : Bool) (E : Env) (c1 c2 : Cfg) (pkg : Pkg) (s1
     obtain ⟨hk0, hrefs0⟩ := refs_of_kept h0
     exact ⟨by rw [hk2r, hkk, hk0], by rw [hrefs2, hrefs0, hkk]⟩
 
-/-- the second signing cannot fail when the first succeeded and `[Content_Types].xml` reads back as written: stated, not
-    proved (needs the `Marshal`/`Parse` round trip of the content type tables through the sorted lists; every `resign` op
-    executes it on the real code and on the model) -/
+/-- the second signing cannot fail when the first succeeded and `[Content_Types].xml` reads back as written.  Proved in
+    `Relic.Props.C08_VsixTotal` (`vsix_resign_total : vsix_resign_total_full`; lemmas in `Relic.Proofs.VsixResign`: the
+    `Marshal`/`Parse` round trip of the content type tables through the sorted lists, and the independence of the repair
+    check `uriPath (Ref.uri r) = r.name` from the content type).  Every `resign` op also executes it on the real code and
+    on the model. -/
 def vsix_resign_total_full : Prop :=
   ∀ (E : Env) (c1 c2 : Cfg) (pkg : Pkg) (s1 : Vsix.Signed), Vsix.sign true E c1 pkg = .ok s1 → cfgOk c1 = true →
     (∀ a b, E.parseCT (E.marshalCT a b) = some (a, b)) → ∃ s2, Vsix.sign true E c2 s1.parts = .ok s2
